@@ -220,7 +220,7 @@ pub fn apply_op<R: Dest>(x: &mut R, op: &Op) {
                         paint(row, &mut n);
                     }
                 }
-                _ => {
+                4 => {
                     if let Some(row) = it.nth_back(1) {
                         paint(row, &mut n);
                     }
@@ -228,6 +228,9 @@ pub fn apply_op<R: Dest>(x: &mut R, op: &Op) {
                         paint(row, &mut n);
                     }
                 }
+                // internal iteration (fold / rfold paths)
+                5 => it.for_each(|row| paint(row, &mut n)),
+                _ => it.rev().for_each(|row| paint(row, &mut n)),
             }
         }
         Op::ColMutWrite(c, mode) => {
@@ -259,13 +262,15 @@ pub fn apply_op<R: Dest>(x: &mut R, op: &Op) {
                         *e = wval(&mut n);
                     }
                 }
-                _ => {
+                4 => {
                     // IndexMut on the column
                     let l = it.len();
                     for i in 0..l {
                         it[i] = wval(&mut n);
                     }
                 }
+                5 => it.for_each(|e| *e = wval(&mut n)),
+                _ => it.rev().for_each(|e| *e = wval(&mut n)),
             }
         }
         Op::CellsMutWrite(mode) => {
@@ -291,7 +296,7 @@ pub fn apply_op<R: Dest>(x: &mut R, op: &Op) {
                         *e = wval(&mut n);
                     }
                 }
-                _ => loop {
+                4 => loop {
                     match it.next() {
                         Some(e) => *e = wval(&mut n),
                         None => break,
@@ -301,6 +306,14 @@ pub fn apply_op<R: Dest>(x: &mut R, op: &Op) {
                         None => break,
                     }
                 },
+                5 => it.for_each(|e| *e = wval(&mut n)),
+                _ => {
+                    // one step from the front, then internal iteration from the back
+                    if let Some(e) = it.next() {
+                        *e = wval(&mut n);
+                    }
+                    it.rev().for_each(|e| *e = wval(&mut n))
+                }
             }
         }
         Op::CopyFromSlice(len) => x.copy_from_slice(&src_slice(*len)),
@@ -367,7 +380,7 @@ pub fn ops_for(c: usize, r: usize, cw_max: usize) -> Vec<Op> {
             v.push(Op::SwapCols(a, b));
         }
     }
-    for m in 0..5 {
+    for m in 0..7 {
         v.push(Op::RowsMutWrite(m));
         v.push(Op::CellsMutWrite(m));
         for x in 0..=c {
@@ -417,4 +430,104 @@ pub fn ops_for(c: usize, r: usize, cw_max: usize) -> Vec<Op> {
     v.push(Op::FlipRows);
     v.push(Op::FlipCols);
     v
+}
+
+
+/// The operations of `apply_op` that make sense for zero-sized elements, on a receiver of `()`.
+pub fn apply_op_unit<R: TooDeeOpsMut<()> + CopyOps<()>>(x: &mut R, op: &Op) {
+    use std::cmp::Ordering;
+    match op {
+        Op::Write(c, r) => x[(*c, *r)] = (),
+        Op::WriteRow(c, r) => x[*r][*c] = (),
+        Op::Fill => x.fill(()),
+        Op::Swap(a, b) => x.swap(*a, *b),
+        Op::SwapRows(a, b) => x.swap_rows(*a, *b),
+        Op::SwapCols(a, b) => x.swap_cols(*a, *b),
+        Op::RowPairWrite(a, b) => {
+            let _ = x.row_pair_mut(*a, *b);
+        }
+        Op::CopyFromSlice(len) => x.copy_from_slice(&vec![(); *len]),
+        Op::CloneFromSlice(len) => x.clone_from_slice(&vec![(); *len]),
+        Op::CopyFromToodee(k, c, r) | Op::CloneFromToodee(k, c, r) => {
+            // the same source kinds as `with_src`: an owned c x r array, or the window
+            // (1,1)-(1+c,1+r) of a (c+2) x (r+2) array
+            let clone = matches!(op, Op::CloneFromToodee(..));
+            if *k == 0 {
+                let src = TooDee::<()>::init(*c, *r, ());
+                if clone {
+                    x.clone_from_toodee(&src)
+                } else {
+                    x.copy_from_toodee(&src)
+                }
+            } else {
+                let p = TooDee::<()>::init(*c + 2, *r + 2, ());
+                let v = p.view((1, 1), (1 + *c, 1 + *r));
+                if clone {
+                    x.clone_from_toodee(&v)
+                } else {
+                    x.copy_from_toodee(&v)
+                }
+            }
+        }
+        Op::CopyWithin(a, b, d) => x.copy_within((*a, *b), *d),
+        Op::Sort(v, i) => {
+            let i = *i;
+            match v {
+                0 => x.sort_row_ord::<()>(i),
+                1 => x.sort_unstable_row_ord::<()>(i),
+                2 => x.sort_by_row(i, |_, _| Ordering::Equal),
+                3 => x.sort_unstable_by_row(i, |_, _| Ordering::Equal),
+                4 => x.sort_by_row_key(i, |_| 0u8),
+                5 => x.sort_unstable_by_row_key(i, |_| 0u8),
+                6 => x.sort_col_ord::<()>(i),
+                7 => x.sort_by_col(i, |_, _| Ordering::Equal),
+                8 => x.sort_unstable_by_col(i, |_, _| Ordering::Equal),
+                9 => x.sort_by_col_key(i, |_| 0u8),
+                _ => x.sort_unstable_by_col_key(i, |_| 0u8),
+            }
+        }
+        Op::Translate(mc, mr) => x.translate_with_wrap((*mc, *mr)),
+        Op::FlipRows => x.flip_rows(),
+        Op::FlipCols => x.flip_cols(),
+        Op::RowsMutWrite(_) | Op::ColMutWrite(..) | Op::CellsMutWrite(_) => {}
+    }
+}
+
+/// Zero-sized elements carry no data, but an operation must still accept and reject exactly the
+/// same arguments as for any other element type (a "nothing to move" shortcut must not skip the
+/// argument checks). Runs each operation on a c x r array of `()` (owned, and as a window of a
+/// larger array of `()`) and on a c x r array of `Kt`, and compares whether the call panicked.
+pub fn zst_panic_differential(c: usize, r: usize, ops: &[Op], ctx: &mut crate::engine::Ctx) {
+    use crate::engine::guarded;
+    for op in ops {
+        if matches!(op, Op::RowsMutWrite(_) | Op::ColMutWrite(..) | Op::CellsMutWrite(_)) {
+            continue;
+        }
+        ctx.case(
+            || format!("TooDee<()> {}x{} vs TooDee<Kt>: {:?}", c, r, op),
+            |cs| {
+                let mut k: TooDee<Kt> = super::recv::parent_kt(c, r);
+                let kt_panics = guarded(|| apply_op(&mut k, op)).is_err();
+                let mut z: TooDee<()> = TooDee::init(c, r, ());
+                let z_panics = guarded(|| apply_op_unit(&mut z, op)).is_err();
+                let mut zp: TooDee<()> = TooDee::init(c + 2, r + 2, ());
+                let zw_panics = guarded(|| {
+                    let mut w = zp.view_mut((1, 1), (1 + c, 1 + r));
+                    apply_op_unit(&mut w, op)
+                })
+                .is_err();
+                cs.outcome(if kt_panics { "rejected" } else { "accepted" });
+                cs.nontrivial((c, r, op));
+                if z_panics != kt_panics {
+                    cs.fail("zst:panic-differs", format!("on a {}x{} array of () the call {} but on an array of ordinary elements it {}", c, r, if z_panics { "panicked" } else { "returned" }, if kt_panics { "panicked" } else { "returned" }));
+                }
+                if zw_panics != kt_panics {
+                    cs.fail("zst:panic-differs", format!("on a {}x{} window of () the call {} but on an array of ordinary elements it {}", c, r, if zw_panics { "panicked" } else { "returned" }, if kt_panics { "panicked" } else { "returned" }));
+                }
+                if z.size() != (c, r) || z.data().len() != c * r {
+                    cs.fail("zst:shape-changed", format!("the array of () now has size {:?} and {} cells", z.size(), z.data().len()));
+                }
+            },
+        );
+    }
 }
